@@ -97,6 +97,11 @@ def run(prop, tier, seed):
                        f"every envelope invariant, e.g. {extra[0]}")
         log(f"SPEC-DRIFT: the code deviates from the mirror (SymVMMC) on {mc['replay']['mismatching']} cases without "
             f"violating a property")
+    cfgres = None
+    if prop == "C08":
+        import cfgmodel
+        cfgres = cfgmodel.run(tier, seed)
+        cfgmodel.report(prop, v, cfgres)
     halt = halting.run(v, tier, seed) if prop == "C03" else None
     stack = None
     if prop == "C17":
@@ -120,6 +125,10 @@ def run(prop, tier, seed):
                 "kinds, error programs of 9 kinds, gas programs) under limits L in 1..12, F in 1..60, G in 150..30M, both modes",
         "samples": [mc["sample"], {"violations": [symvm.classify(x) for x in res["viol"]][:5]}],
     }
+    if cfgres:
+        cov["cfg_model"] = {k: cfgres[k] for k in ("programs", "exact", "families")}
+        cov["states"] += cfgres["states"]
+        cov["rule"] += "; executed offsets of generated programs against Cfg!MayReach (CfgTrace.tla)"
     if stack:
         cov["operand_stack_model"] = vmstate.coverage(stack)
         cov["states"] += stack["states"]
